@@ -9,8 +9,11 @@ queue) something must convey that peer's key to the backend so that its table en
 tree has no such mechanism: KNOWN FINDING F16d; (R16.3) a failed write forgets the peer: round-robin senders
 (C10 R10.3 re-evaluated), REQ send (entry removed) and REQ recv (entry removed on end-of-stream and on error),
 PUB reader task (peer_disconnected on None and on Err), PUB/XPUB send (every peer marked dead is passed to
-peer_disconnected); (R16.4) every peer_disconnected impl removes the table entry keyed by its argument;
-(R16.5) a leftover ready event of a removed peer is skipped, never turned into Pending (C06 R06.1 re-evaluated).
+peer_disconnected), SUB connect path (a connection that failed while the subscriptions were announced to it is never
+registered: C13 R13.1 re-evaluated); (R16.4) every peer_disconnected impl removes the table entry keyed by its argument
+and forgets *only* that peer (no bulk operation on a shared container; QueueInner::remove removes that key's stream only);
+(R16.5) a leftover ready event of a removed peer is skipped, never turned into Pending, and the others' queued events and
+ticket order are never disturbed (C06 R06.1 / R06.5 re-evaluated).
 Does NOT decide descriptor counts, kernel-level release or "other peers unaffected" at run time."""
 from ..sym import show, walk_expr
 from ..common import short, trait_impls, coroutine_of
@@ -54,10 +57,38 @@ def analyse_disconnect_impls(f, rep):
                           "%s::peer_disconnected removes the peer's stream from the receive queue (otherwise the errored stream is polled again and again)" % ty, b.loc())
             rep.check(bool(t), "R16.4", "R16.4|%s|removes-table-entry" % ty, "%s::peer_disconnected removes the peer-table entry of its argument" % ty, b.loc())
         info[ty] = {"table": removes_table, "stream": removes_stream or not has_queue, "has_queue": has_queue}
+        # ... and it forgets *only* that peer: no bulk change of a shared container (table, rotation, receive queue) on this path
+        BULK = ("clear", "clear_sync", "clear_async", "retain", "retain_sync", "retain_async", "drain", "truncate", "pop", "pop_front", "pop_back",
+                "prune_sync", "prune_async", "iter_mut_sync", "iter_mut_async", "remove_if_sync", "remove_if_async")
+        bulk = sorted({fn["name"] for k in pathq.scope(f, b) for bb, t2, fn in k.calls()
+                       if fn and fn["name"] in BULK and any(c_ in fn["path"] for c_ in ("scc::", "HashMap", "SegQueue", "BinaryHeap", "VecDeque", "Vec<", "vec::Vec"))})
+        rep.check(not bulk, "R16.4", "R16.4|%s|forgets-only-that-peer" % ty,
+                  "%s::peer_disconnected changes the shared containers only by keyed removal of its argument (bulk operations: %s)" % (ty, bulk), b.loc())
+    # the same for the receive queue's own remove(key)
+    for qb in [b2 for b2 in f.bodies if b2.j.get("name") == "remove" and "QueueInner" in b2.path and b2.kind == "AssocFn"]:
+        ops = sorted({fn["name"] for k in pathq.scope(f, qb) for bb, t2, fn in k.calls() if fn and any(c_ in fn["path"] for c_ in ("HashMap", "BinaryHeap", "Vec"))})
+        rep.check(ops == ["remove"], "R16.4", "R16.4|queue-remove|forgets-only-that-peer",
+                  "QueueInner::remove(key) only removes that key's stream (container operations: %s): the other peers' streams and queued wake-ups stay" % ops, qb.loc())
     return info
 
 
+def check_failed_announce(ctx, f, rep):
+    """R16.3 (SUB connect path): a connection that failed while the subscriptions were announced to it is never registered
+    (C13 R13.1 failed-announce-not-registered, re-evaluated): the socket must not route later traffic to it."""
+    from . import c13
+    from ..report import Report
+    sub = Report("C16", rep.config)
+    c13.run(ctx, f, sub)
+    n = 0
+    for o in sub.obls:
+        if "failed-announce-not-registered" in o.key:
+            n += 1
+            (rep.ok if o.ok else rep.bad)("R16.3", o.key.replace("R13.1", "R16.3", 1), o.what, o.loc, o.detail)
+    rep.floor("R16.3", "SUB registering paths examined for a failed announcement", n, 1)
+
+
 def run(ctx, f, rep):
+    check_failed_announce(ctx, f, rep)
     info = analyse_disconnect_impls(f, rep)
     # ---- R16.1 recv error arms
     recvs = trait_impls(f, "SocketRecv", "recv")
@@ -216,5 +247,6 @@ def run(ctx, f, rep):
     sub = Report("C16", rep.config)
     c06.run(ctx, f, sub)
     for o in sub.obls:
-        if o.rule == "R06.1":
-            (rep.ok if o.ok else rep.bad)("R16.5", o.key.replace("R06.1", "R16.5", 1), o.what, o.loc, o.detail)
+        if o.rule in ("R06.1", "R06.5"):
+            # R06.5: forgetting one peer must not discard the queued wake-ups of the others ("traffic with all other peers continues")
+            (rep.ok if o.ok else rep.bad)("R16.5", o.key.replace(o.rule, "R16.5", 1), o.what, o.loc, o.detail)
